@@ -197,22 +197,26 @@ int main ()
 
   // oracle: in ANY polarization basis (process-wide setting) the ensemble coherency matrix <e e^dagger> of the generated fields is the
   // coherency matrix convert(S) of the requested Stokes parameters, and coherency(<e e^dagger>) gives them back
-  OP("o.c01.basis") { std::string b = A.next(); if (b == "cir") Pauli::basis().set_basis (Signal::Circular); else if (b == "ell") { double o = A.d(); double e = A.d(); Pauli::basis().set_basis (o, e); }
-    else if (b != "lin") throw std::runtime_error ("protocol:basis");
-    Stokes<double> S = A.stokes(); epsic::mode m; m.set_Stokes (S); m.set_normal (&g_bm);
+  // (a history on ONE mode object: for each step the basis is set, then set_Stokes is called, then the ensemble is checked)
+  OP("o.c01.basis") { unsigned steps = 1; std::string first = A.next(); if (first == "seq") { steps = A.n(); first = A.next(); }
+    epsic::mode m; m.set_normal (&g_bm); bool finite = true; long double e1 = 0, e2 = 0;
     static const float node[5] = { 0, 1, -1, 2, -2 }; static const long double wt[5] = { 0.5L, 1.0L/6, 1.0L/6, 1.0L/12, 1.0L/12 };
-    std::complex<long double> r00 = 0, r01 = 0, r10 = 0, r11 = 0; bool finite = true;
-    for (int a=0;a<5;a++) for (int bb=0;bb<5;bb++) for (int c=0;c<5;c++) for (int d=0;d<5;d++) {
-      g_normal.push_back (node[a]); g_normal.push_back (node[bb]); g_normal.push_back (node[c]); g_normal.push_back (node[d]);
-      Spinor<double> e = m.get_field(); long double w = wt[a]*wt[bb]*wt[c]*wt[d];
-      std::complex<long double> x (e.x.real(), e.x.imag()), y (e.y.real(), e.y.imag()); finite = finite && std::isfinite (e.x.real()) && std::isfinite (e.y.imag());
-      r00 += w * x * std::conj (x); r01 += w * x * std::conj (y); r10 += w * y * std::conj (x); r11 += w * y * std::conj (y); }
-    Jones<double> want = convert (S); long double scale = std::max ((long double) std::fabs (S[0]), 1e-300L);
-    long double e1 = std::max (std::max (std::abs (r00 - std::complex<long double>(want.j00)), std::abs (r01 - std::complex<long double>(want.j01))),
-                               std::max (std::abs (r10 - std::complex<long double>(want.j10)), std::abs (r11 - std::complex<long double>(want.j11)))) / scale;
-    Jones<double> rho (std::complex<double>((double) r00.real(), (double) r00.imag()), std::complex<double>((double) r01.real(), (double) r01.imag()),
-                       std::complex<double>((double) r10.real(), (double) r10.imag()), std::complex<double>((double) r11.real(), (double) r11.imag()));
-    Stokes<double> back = coherency (rho); long double e2 = 0; for (int i=0;i<4;i++) e2 = std::max (e2, fabsl ((long double) back[i] - S[i]) / scale);
+    for (unsigned st=0; st<steps; st++) { std::string b = st ? A.next() : first;
+      if (b == "cir") Pauli::basis().set_basis (Signal::Circular); else if (b == "lin") Pauli::basis().set_basis (Signal::Linear);
+      else if (b == "ell") { double o = A.d(); double e = A.d(); Pauli::basis().set_basis (o, e); } else throw std::runtime_error ("protocol:basis");
+      Stokes<double> S = A.stokes(); m.set_Stokes (S);
+      std::complex<long double> r00 = 0, r01 = 0, r10 = 0, r11 = 0;
+      for (int a=0;a<5;a++) for (int bb=0;bb<5;bb++) for (int c=0;c<5;c++) for (int d=0;d<5;d++) {
+        g_normal.push_back (node[a]); g_normal.push_back (node[bb]); g_normal.push_back (node[c]); g_normal.push_back (node[d]);
+        Spinor<double> e = m.get_field(); long double w = wt[a]*wt[bb]*wt[c]*wt[d];
+        std::complex<long double> x (e.x.real(), e.x.imag()), y (e.y.real(), e.y.imag()); finite = finite && std::isfinite (e.x.real()) && std::isfinite (e.y.imag());
+        r00 += w * x * std::conj (x); r01 += w * x * std::conj (y); r10 += w * y * std::conj (x); r11 += w * y * std::conj (y); }
+      Jones<double> want = convert (S); long double scale = std::max ((long double) std::fabs (S[0]), 1e-300L);
+      e1 = std::max (e1, std::max (std::max (std::abs (r00 - std::complex<long double>(want.j00)), std::abs (r01 - std::complex<long double>(want.j01))),
+                               std::max (std::abs (r10 - std::complex<long double>(want.j10)), std::abs (r11 - std::complex<long double>(want.j11)))) / scale);
+      Jones<double> rho (std::complex<double>((double) r00.real(), (double) r00.imag()), std::complex<double>((double) r01.real(), (double) r01.imag()),
+                         std::complex<double>((double) r10.real(), (double) r10.imag()), std::complex<double>((double) r11.real(), (double) r11.imag()));
+      Stokes<double> back = coherency (rho); for (int i=0;i<4;i++) e2 = std::max (e2, fabsl ((long double) back[i] - S[i]) / scale); }
     O.puti (finite ? 1 : 0); O.put ((double) e1); O.put ((double) e2); };
 
   // ------------------------------------------------------------ C06: sample means
@@ -313,6 +317,13 @@ int main ()
     long double exact = acc / cnt / ((long double)n*n);      // modulation variance 1, outer(S,S)[0][0] = 1
     if (slag == 0) { long double fieldterm = 0.5L * 2.0L / n; exact += fieldterm; }   // (mu^2+var) C00 / n with C00 = 1/2
     O.put ((double) fabsl (exact - reported)); };
+  // oracle (history): re-configuring a live rectangular-impulse model for another sample size must give the table of a freshly
+  // constructed model for that size.  Output: max |difference| of the lag terms
+  OP("o.c07.retable") { unsigned w = A.n(); unsigned n1 = A.n(); unsigned n2 = A.n(); epsic::mode base; base.set_Stokes (Stokes<double>(1,0,0,0));
+    scripted_mod* s1 = new scripted_mod (&base, 1.0, 1.0); scripted_mod* s2 = new scripted_mod (&base, 1.0, 1.0);
+    epsic::square_modulated_mode live (s1, w, n1); live.compute_cross_correlation (n2); epsic::square_modulated_mode fresh (s2, w, n2);
+    double worst = 0; for (unsigned l=0; l<w+1; l++) worst = std::max (worst, std::fabs (live.get_crosscovariance(l)[0][0] - fresh.get_crosscovariance(l)[0][0]));
+    O.put (worst); };
   // oracle (log-normal): mean and variance of the generated factors by Gauss-Hermite quadrature through the deviate source
   OP("o.c07.lognormal") { double beta = A.d(); epsic::mode base; epsic::lognormal_mode ln (&base, beta); ln.set_normal (&g_bm);
     static const double gx[16] = { 0.27348104613815245, 0.82295144914465589, 1.3802585391988808, 1.9517879909162540, 2.5462021578474814, 3.1769991619799560, 3.8694479048601227, 4.6887389393058184,
@@ -342,6 +353,15 @@ int main ()
     O.put (co->get_correlation()); O.put (co->get_intensity_covariance());
     for (char c : pat) O.put (c == 'A' ? A_->modulation() : B_->modulation());
     O.puti (g_normal_calls); };
+  // oracle: a correlation outside the admissible range is rejected on EVERY request, not only on the first one.
+  // Output: number of requests (out of 4: A, B, A, B) that were served although the first one was rejected
+  OP("o.c08.reject") { double rho = A.d(); double b0 = A.d(); double b1 = A.d();
+    epsic::bivariate_lognormal_modes* co = new epsic::bivariate_lognormal_modes (rho); co->set_normal (&g_bm); co->set_beta (0, b0); co->set_beta (1, b1);
+    epsic::mode* ma = new epsic::mode; epsic::mode* mb = new epsic::mode; epsic::modulated_mode* A_ = co->get_modulated_mode (0, ma); epsic::modulated_mode* B_ = co->get_modulated_mode (1, mb);
+    g_cycle = true; g_normal.push_back (0.25f); g_normal.push_back (-0.5f); int first = -1; long served_after_reject = 0;
+    for (int k=0;k<4;k++) { bool ok = true; try { if (k%2) B_->modulation(); else A_->modulation(); } catch (Exhausted&) { throw; } catch (std::exception&) { ok = false; }
+      if (k == 0) first = ok ? 1 : 0; else if (first == 0 && ok) served_after_reject++; }
+    O.put ((double) served_after_reject); O.puti (first); };
   // oracle (history): changing the modulation indices after factors have been drawn must give the same factors, from the same
   // deviates, as a coordinator configured with the new indices from the start (and the same rejection, if the correlation
   // is no longer admissible).  Output: number of differing factors (or 1 when only one of the two rejects)
